@@ -2,6 +2,13 @@
 //! probe lines / operation histories for the Lean driver. See /verif/ARCH.md.
 mod rng;
 mod util;
+mod pure_time;
+mod pure_names;
+mod pure_lfn;
+mod pure_bpb;
+mod pure_format;
+mod pure_fat;
+mod pure_cursor;
 
 use std::io::Write;
 use util::Tier;
@@ -23,11 +30,14 @@ fn main() {
     let stdout = std::io::stdout();
     let mut out = std::io::BufWriter::with_capacity(1 << 20, stdout.lock());
     match (args[1].as_str(), args[2].as_str()) {
-        _ => {
-            let _ = (tier, seed);
-            usage()
-        }
+        ("pure", "time") => pure_time::run(tier, seed, &mut out),
+        ("pure", "names") => pure_names::run(tier, seed, &mut out),
+        ("pure", "lfn") => pure_lfn::run(tier, seed, &mut out),
+        ("pure", "bpb") => pure_bpb::run(tier, seed, &mut out),
+        ("pure", "format") => pure_format::run(tier, seed, &mut out),
+        ("pure", "fat") => pure_fat::run(tier, seed, &mut out),
+        ("pure", "cursor") => pure_cursor::run(tier, seed, &mut out),
+        _ => usage(),
     }
-    #[allow(unreachable_code)]
     out.flush().unwrap();
 }
